@@ -280,9 +280,12 @@ func init() {
 		Items:       func(tier string) []WorkItem { return crashItems("C09", tier, FamilyCrash(tier)) },
 	})
 	register(&PropDef{
-		ID: "C10", Level: "model_checking", Rule: crashRule + "; the uninterrupted outcome of the same scenario is the differential oracle when every script is constant",
+		ID: "C10", Level: "model_checking", Rule: crashRule + "; the uninterrupted outcome of the same scenario is the differential oracle when every script is constant; cross-validation against a REAL process kill: a child process runs a plan on a file-backed store under strace fault injection (SIGKILL at every write-class system call), a second process recovers it, and the same predicates are evaluated (see notes)",
 		Assumptions: []string{"process death only: the durable state is Create plus a prefix of the completed single-row updates (no torn pages, no power loss)", "64-runner pool, I/O granularity", "plan outcome = status and failure reason of the plan"},
 		NewMon:      func(sc *Scenario) Monitor { return monC10{} },
-		Items:       func(tier string) []WorkItem { return crashItems("C10", tier, FamilyCrash(tier)) },
+		Items: func(tier string) []WorkItem {
+			return append(crashItems("C10", tier, FamilyCrash(tier)), realKillItems(tier)...)
+		},
+		Enum: enumRealKill,
 	})
 }
